@@ -2,13 +2,15 @@ SPEC = dict(
     level="exploration",
     technique="runtime monitor: seeded concurrent histories of the real lib/syncx primitives recorded at the caller boundary (call/return/callback stamps from one atomic sequence), checked with porcupine v1.3.0 against each primitive's sequential specification (Limit, TimeoutLimit, Pool incl. virtual-clock maxAge, RefResource) and with direct interval / gauge oracles (SingleFlight, LockedCalls, ResourceManager, ManagedResource, SpinLock, Barrier, DoneChan, OnceGuard, ImmutableResource); in-test GOMAXPROCS sweep; separate Go race detector run; thorough tier widens the delete->Done and Cond signal windows with gofail sleeps",
     level_text="Held = no deviation on the histories executed (quick: ~6k histories without and ~3k with the race detector; thorough x15 plus a failpoint-widened run; histories of <= 70 operations / <= 8 clients go through porcupine, up to 64 goroutines through the direct interval and gauge oracles), not a proof over all interleavings.",
-    level_note="Trusts: Go runtime and race detector, porcupine, the 20-line sequential models, vk.Seq as the single stamp source. One-sided real-time check only for TimeoutLimit (ErrTimeout never earlier than timeout-2ms). Liveness (a blocked Get/Borrow that never returns) is outside the statement: a 25 s watchdog turns it into INCONCLUSIVE, never VIOLATION. Not asserted: LIFO order of Pool, that Pool destroys only expired resources, result of a Clean without a matching Use, behaviour of ResourceManager after Close / Set over an existing key, panicking callbacks, fairness.",
+    level_note="Trusts: Go runtime and race detector, porcupine, the 20-line sequential models, vk.Seq as the single stamp source. One-sided real-time check only for TimeoutLimit (ErrTimeout never earlier than timeout-2ms). Liveness (a blocked Get/Borrow that never returns) is outside the statement: a 25 s watchdog turns it into INCONCLUSIVE, never VIOLATION - with one exception taken from the statement ('each executes; a later call always executes afresh'): a LockedCalls.Do still parked after 25 s whose callback was never entered, while no callback of its key runs and a panicked (recovered) predecessor on that key has demonstrably returned to its caller, is reported as C18:lockedcalls:blocked-after-panic. Not asserted: LIFO order of Pool, that Pool destroys only expired resources, result of a Clean without a matching Use, behaviour of ResourceManager after Close / Set over an existing key, the values delivered to callers that share a panicked flight, fairness.",
     design_ref="DESIGN.md §3 C18",
     assumptions=[
         "callers respect the documented contracts: Pool.Put only of resources obtained from Get, RefResource.Clean only after an own successful Use, ResourceManager not used after Close, Set on keys not used by Get",
         "SingleFlight sharing is judged on call intervals: a result may come from an execution whose *call* overlaps the receiving call (the window between the callback's return and the map delete is legal sharing), but not once any call served by that execution has returned (then a later call must execute afresh)",
         "TryBorrow/Return follow the exact counter specification (the property asks for linearizability against the sequential specification); a timed Borrow may time out in any state (lost wake-ups are not asserted against)",
         "Pool: which idle resource Get picks, and whether it reuses or creates, is left open; destroy of a non-expired idle resource is not flagged",
+        "callbacks / create / generate functions may panic and the calling goroutine recovers; callers sharing a panicked single flight receive (nil, nil) (HEAD behaviour, accepted), ResourceManager.Get callers sharing a panicked create may themselves panic (accepted, counted as failed Gets)",
+        "ManagedResource: a resource is replaced only after MarkBroken was called with that very resource (stale reports must leave the current resource alone)",
         "ImmutableResource is checked sequentially only (concurrent Gets may legitimately fetch concurrently)",
     ],
     runs=[
